@@ -19,7 +19,8 @@
    fields is outside the property. *)
 From Coq Require Import List NArith.
 From Dials Require Import Base.Outcome Reflect.Ty Reflect.Heap Copy.DeepCopy Copy.DeepCopySpec
-  Stack.ComposeH Stack.ComposeHProofs Stack.History Stack.HistoryProofs Stack.ComposeHFacts.
+  Stack.ComposeH Stack.ComposeHProofs Stack.History Stack.HistoryProofs Stack.ComposeHTyping Stack.ComposeHTotal
+  Stack.ComposeHFacts.
 Import ListNotations.
 Open Scope N_scope.
 
@@ -41,6 +42,27 @@ Theorem compose_inputs_unchanged : forall fuel fs h n0 d layers h' n' d',
   (forall a, a < n0 -> hget h' a = hget h a) /\
   (forall a o, hget h a = Some o -> hget h' a = Some o).
 Proof. exact compose_inputs_unchanged_b. Qed.
+
+(* compose returns on every well-formed input: c02_guard (Stack/ComposeHTyping.v,
+   decidable) = the C03 guards on the heap (finite, closed, ranked, kind-correct)
+   + C01's type universe cfg_ok fs + a store typing S0 of the spines (the cell of
+   the defaults holds a struct of the config type, every layer cell one of the
+   pointerified type, and so on along struct / pointer-to-struct fields; the
+   pointee cells of wrapped leaves exist).  Fuel: the C03 bound, once. *)
+Theorem compose_h_total : forall fuel fs h n0 R D rk S0 d layers,
+  c02_guard h n0 R D rk S0 fs d layers = true -> (copy_fuel n0 R D <= fuel)%nat ->
+  exists h' n' d', compose_h fuel fs h n0 d layers = Done ((h', n'), d').
+Proof. exact compose_h_total_b. Qed.
+
+(* ... so freshness and "inputs unchanged" hold without "if the call returns" *)
+Theorem compose_snapshot : forall fuel fs h n0 R D rk S0 d layers,
+  c02_guard h n0 R D rk S0 fs d layers = true -> (copy_fuel n0 R D <= fuel)%nat ->
+  exists h' n' d', compose_h fuel fs h n0 d layers = Done ((h', n'), d') /\
+    n0 <= d' < n' /\
+    (forall a, reach h' [(RCell, d')] a -> n0 <= a < n' /\ hget h a = None) /\
+    (forall a, a < n0 -> hget h' a = hget h a) /\
+    (forall a o, hget h a = Some o -> hget h' a = Some o).
+Proof. exact compose_snapshot_b. Qed.
 
 (* Two stackings of the same inputs (the second call starts where the first
    one stopped): the second result is the first one with every address the
@@ -76,5 +98,7 @@ Proof. exact versions_pairwise_disjoint_b. Qed.
 
 Print Assumptions compose_fresh.
 Print Assumptions compose_inputs_unchanged.
+Print Assumptions compose_h_total.
+Print Assumptions compose_snapshot.
 Print Assumptions compose_deterministic.
 Print Assumptions versions_pairwise_disjoint.
